@@ -131,6 +131,20 @@ def fmtServe (x : Option Call × Outcome) : String :=
   | (some c, o) => fmtCall c ++ " => " ++ fmtOutcome o
   | (none, o) => "nocall => " ++ fmtOutcome o
 
+/-- An informational status (1xx except 101) passed to `WriteHeader` is not the final status in net/http; the recorder
+model treats every `WriteHeader` as final, so handlers whose script does that are outside the modelled domain. -/
+def informational (c : Nat) : Bool := 100 ≤ c ∧ c ≤ 199 ∧ c ≠ 101
+
+def fmtServeS (scripts : Scripts) (x : Option Call × Outcome) : String :=
+  match x with
+  | (some c, _) =>
+    match c.handler.base with
+    | .user hid =>
+      if (scripts.get hid).any (fun a => match a with | .writeHeader code => informational code | _ => false)
+      then "unsupported" else fmtServe x
+    | _ => fmtServe x
+  | _ => fmtServe x
+
 def fmtErr (e : Err) : String :=
   match e with
   | .unsupported => "unsupported"
@@ -294,7 +308,7 @@ def step (st : St) (line : String) : St × String :=
       -- `strings.EqualFold` / `TrimSpace` of the allowed-headers check are Unicode-aware; the model is ASCII
       if ¬ r.cors.deny ∧ ((req.headers.get hACRH).any (· ≥ 128) ∨ r.cors.allowHeaders.any (fun h => h.any (· ≥ 128)))
       then (st, "unsupported")
-      else (st, fmtServe (r.serveHTTP env st.pc st.scripts req [])))
+      else (st, fmtServeS st.scripts (r.serveHTTP env st.pc st.scripts req [])))
   | ["url", rid, strict, pattern, params] =>
     withRouter st rid (fun _ r => (st, fmtUrl (r.url env (decBool strict) (decB pattern) (decM params))))
   | ["murl", pattern, params] => (st, fmtUrl (muxURL (decB pattern) (decM params)))
@@ -464,7 +478,7 @@ def step (st : St) (line : String) : St × String :=
       let corsOutside := (req.headers.get hACRH).any (· ≥ 128) ∧
         grp.routers.any (fun e => match st.routers.get? e.1 with | some r => ¬ r.cors.deny | none => false)
       if grp.routers.any (fun e => st.tainted.contains e.1 ∨ (matcherHosts e.2).any st.taintedHosts.contains) ∨ corsOutside then (st, "unsupported")
-      else (st, fmtServe (grp.serveHTTP env st.hostsTab st.pc st.scripts st.routers req))
+      else (st, fmtServeS st.scripts (grp.serveHTTP env st.hostsTab st.pc st.scripts st.routers req))
     | none => (st, "bad-op")
   -- handler behaviour
   | ["script", hid, acts] =>
